@@ -66,6 +66,15 @@ LOOPS (second half of this file).
   Python returns a float, which cannot be typed: the error value `Err.type` (to be excluded by the tie's hypotheses).
 * `a >> k` on ints (`ishr`): the floor shift `Int.shiftRight` (so `-1 >> 1 == -1`), `ValueError` on a negative count; `abs` on an int
   (`iabs`); `min` / `max` of ints (`imin` / `imax`, n-ary ones folded from the left: CPython's "first among the smallest / greatest").
+* `for k, x in enumerate(L)`: `forList` over `enumerate L` = `[(0, L[0]), (1, L[1]), …]`. `[c] * n` (`replicate`): `n` copies, none when
+  `n ≤ 0`. `L[i] = v` on a list created in the function (`setIdx`): the list with item `i` replaced, Python's negative indices,
+  `IndexError` out of range; `L[i] op= e` reads `L[i]`, evaluates `e`, stores the result at `i`.
+* TABLES: a 2-D numpy array of floats that is only indexed `T[i, j]` is the list of its rows: `np.zeros((r, c))` (`zeros2`, `ValueError` on a negative dimension), `T[i, j]`
+  (`getIdx2`), `T[i, j] = v` (`setIdx2`, the value converted to a float as numpy does for a float64 array), `T.shape[0]` (`len`). A row
+  index is resolved before the column index; both follow Python's rule for negative indices (numpy's is the same) and raise `IndexError`.
+* `raise E(…)`: the error value `Err.raised`, whatever the class and the message. `b * x` with `b` a bool and `x` a float: `True` is 1, `False` is 0.
+* `sys.float_info.max` is a parameter `dblmax : α` (uninterpreted). `lambda p: e` bound to a local and called later is its body on
+  the argument (the translator refuses a lambda that reads a variable the function assigns).
 * `x in L` / `x not in L` on a list of ints / tuples of ints: `List.elem` with decidable equality (`contains`).
   `L.remove(v)`: `List.erase` (first occurrence), `ValueError` if absent.
 -/
@@ -80,6 +89,7 @@ inductive Err where
   | unbound   -- UnboundLocalError: a variable declared "maybe unbound" in the signature read before it was assigned
   | value     -- ValueError (`range(a, b, 0)`, `L.remove(v)` with `v` absent)
   | fuel      -- NOT a Python exception: the fuel of a `while` loop ran out (the Python loop would still be running)
+  | raised    -- an exception raised by a `raise` statement of the translated function (class and message are not tracked)
   deriving DecidableEq, Repr
 
 /-- result of a Python call: a value or an exception -/
@@ -346,6 +356,37 @@ theorem getItem_eq_ok {β : Type} {l : List β} {k : Nat} {v : β} (h : l[k]? = 
   unfold getItem; rw [h]
 theorem getItem_eq_error {β : Type} {l : List β} {k : Nat} (h : l[k]? = none) : getItem l k = .error .index := by
   unfold getItem; rw [h]
+
+/-- `enumerate(L)`: the list of pairs (position, element), positions from 0 -/
+def enumFrom {β : Type} : Int → List β → List (Int × β)
+  | _, [] => []
+  | k, x :: xs => (k, x) :: enumFrom (k + 1) xs
+@[inline] def enumerate {β : Type} (l : List β) : List (Int × β) := enumFrom 0 l
+
+/-- `[c] * n`: `n` copies of `c`, none when `n ≤ 0` -/
+@[inline] def replicate {β : Type} (n : Int) (c : β) : List β := List.replicate n.toNat c
+
+/-- `L[i] = v`, `i` any int: Python's negative indices, `IndexError` out of range; the list with that item replaced -/
+def setIdx {β : Type} (l : List β) (i : Int) (v : β) : M (List β) :=
+  if 0 ≤ i then (if i.toNat < l.length then .ok (l.set i.toNat v) else .error .index)
+  else if 0 ≤ len l + i then .ok (l.set (len l + i).toNat v)
+  else .error .index
+
+theorem setIdx_natCast {β : Type} (l : List β) (k : Nat) (v : β) (h : k < l.length) : setIdx l (k : Int) v = .ok (l.set k v) := by
+  unfold setIdx; rw [if_pos (by omega), Int.toNat_natCast, if_pos h]
+theorem setIdx_natCast_error {β : Type} (l : List β) (k : Nat) (v : β) (h : l.length ≤ k) : setIdx l (k : Int) v = .error .index := by
+  unfold setIdx; rw [if_pos (by omega), Int.toNat_natCast, if_neg (by omega)]
+
+/-- `np.zeros((r, c))` as a table: `r` rows of `c` zeros; `ValueError` on a negative dimension -/
+def zeros2 {β : Type} (r c : Int) (z : β) : M (List (List β)) :=
+  if r < 0 ∨ c < 0 then .error .value else .ok (replicate r (replicate c z))
+
+/-- `T[i, j]` on a table (list of rows): row `i`, then item `j`, each with Python's / numpy's negative indices and `IndexError` -/
+def getIdx2 {β : Type} (t : List (List β)) (i j : Int) : M β := bind (getIdx t i) fun r => getIdx r j
+
+/-- `T[i, j] = v` on a table -/
+def setIdx2 {β : Type} (t : List (List β)) (i j : Int) (v : β) : M (List (List β)) :=
+  bind (getIdx t i) fun r => bind (setIdx r j v) fun r' => setIdx t i r'
 
 /-- reading a variable that may not have been assigned yet -/
 @[inline] def getBound {β : Type} : Option β → M β
